@@ -21,7 +21,9 @@ when the vector it is added to derives from the second trajectory. C05.5: a
 pair is accepted iff diff <= max_diff (comparison normalised over
 not/flipped/continue spellings). C05.6: the accepted counterpart is
 argmin |stamps_2 + offset - stamp_1|, and the tested difference is that
-minimum. C05.7: zero matches raise SyncException before the normal return.
+minimum. C05.7: zero matches raise SyncException before the normal return, and no
+other SyncException depends on the time stamp values (a range pre-check would
+refuse inputs that have a pair within max_diff).
 C05.8: 'no pose used twice' needs a uniqueness mechanism — a loop-carried
 dependence from the accepted set into the accept decision, or a
 de-duplicating pass — its absence is reported (known finding F2). C05.9:
